@@ -321,6 +321,33 @@ def rule_spatial(ck):
     (o.ok('self.catalog[~region.get_masked(lons, lats)]') if good else o.fail(why))
 
 
+def rule_refusals(ck):
+    """D6.refusal: load_catalog(apply_filters=True) answers CSEPCatalogException from filter_spatial by applying the statements only - that
+    exception therefore means "the catalog has no region" and nothing else.  filter_spatial raises it under a test of the region alone,
+    never from a handler that relabels another error (a region class without get_masked, a defect inside the masking); and from_dict stores a
+    region only when it rebuilt one - it does not overwrite the region the caller supplied with None"""
+    P = ck.prog
+    ck.clause('D6')
+    f = P.func(A + 'filter_spatial')
+    o = ck.ob('C04-D6.refusal', f, '"no region" is raised for a missing region only', f.node)
+    relabel = [h for h in all_nodes(f) if isinstance(h, ast.ExceptHandler) and any(
+        isinstance(r_, ast.Raise) and r_.exc is not None and 'CSEPCatalogException' in u(r_.exc) for s_ in h.body for r_ in ast.walk(s_))]
+    (o.fail('`except %s` in filter_spatial raises CSEPCatalogException: any such error during the masking is then reported as "no region", and '
+            'load_catalog(apply_filters=True) silently skips the spatial filter' % (u(relabel[0].type) if relabel[0].type is not None else ''))
+     if relabel else o.ok())
+    g = P.func(A + 'from_dict')
+    o = ck.ob('C04-D6.keepregion', g, 'from_dict never stores None as the region', g.node)
+    bad = []
+    for n in all_nodes(g):
+        if isinstance(n, ast.Call) and u(n.func) == 'setattr' and len(n.args) == 3 and const_value(n.args[2]) is None \
+                and (const_value(n.args[1]) == 'region' or not isinstance(n.args[1], ast.Constant)):
+            bad.append(n)
+        if isinstance(n, ast.Assign) and isinstance(n.targets[0], ast.Attribute) and n.targets[0].attr == 'region' and const_value(n.value) is None:
+            bad.append(n)
+    (o.fail('`%s` in from_dict: a dictionary without a region erases the region handed in as a keyword, the spatial filter of '
+            'load_catalog(region=..., apply_filters=True) then has nothing to filter with and is skipped' % u(bad[0])[:60]) if bad else o.ok())
+
+
 def rule_region_interface(ck):
     """the spatial filter works for every kind of region a catalog can be bound to: each region class of the package offers the
     methods filter_spatial calls on `self.region` (sibling implementations of one interface)"""
@@ -423,4 +450,4 @@ def rule_region_mask(ck):
     c01.rule_given_region(ck)
 
 
-RULES = [rule_operators, rule_narrowing, rule_datetime, rule_effects, rule_spatial, rule_region_interface, rule_load, rule_paths, rule_every_path_selects, rule_region_mask]
+RULES = [rule_operators, rule_narrowing, rule_datetime, rule_effects, rule_spatial, rule_refusals, rule_region_interface, rule_load, rule_paths, rule_every_path_selects, rule_region_mask]
